@@ -258,6 +258,9 @@ pub fn build_cases(ctx: &Ctx, rng: &mut Rng) -> Vec<Case> {
         }
         // an all-H2 8-level key, and an H10 level
         push(alg, (0..8).map(|i| Level { h: 2, w: WS[i % 4] }).collect(), Plan::Points(vec![0, 1, 3, 4, 65535, 16383, 16384]), rng, &mut cases);
+        // the longest signatures there are: W1 on all 8 levels (> 65535 bytes for the 32-byte hashes)
+        push(alg, (0..8).map(|_| Level { h: 2, w: 1 }).collect(), Plan::Points(vec![0, 21845, 65535]), rng, &mut cases);
+        push(alg, (0..7).map(|_| Level { h: 2, w: 1 }).collect(), Plan::Points(vec![5, 16383]), rng, &mut cases);
         let h10 = if alg.is_shake() && ctx.quick() { levels(&[(5, 4), (10, 4)]) } else { levels(&[(5, 8), (10, 8)]) };
         push(alg, h10, Plan::Points(vec![0, 1023, 1024, 32767]), rng, &mut cases);
         if !ctx.quick() {
